@@ -130,7 +130,7 @@ type FuncReport struct {
 }
 
 func newExec(p *Program) *Exec {
-	return &Exec{prog: p, globals: map[string]string{}, typeTags: map[string]int{}, oblIndex: map[string][]*Obligation{}, pathCap: 6000,
+	return &Exec{prog: p, globals: map[string]string{}, unsignedFam: map[string]int{}, typeTags: map[string]int{}, oblIndex: map[string][]*Obligation{}, pathCap: 6000,
 		loopCache: map[*ssa.Function]map[*ssa.BasicBlock]*loopInfo{}, funcIDs: map[string]int64{}, globalFuns: map[string]string{},
 		unknown: map[string]bool{}, usedMayPanic: map[string]bool{}, usedTypeInv: map[string]bool{}}
 }
